@@ -29,7 +29,7 @@ ASSUMPTIONS = [
     'float32 rounding once = numpy astype(float32) of the float64 value converted by scipp to the declared unit',
     'clock frozen',
 ]
-REQUIRED_CLASSES = ['beyond_float32_range', 'pixels_equal', 'units_converted', 'indirect', 'direct', 'en2d', 'deg_input', 'reader_ok', 'multi_chunk', 'empty_string']
+REQUIRED_CLASSES = ['experiments_reused_ok', 'beyond_float32_range', 'pixels_equal', 'units_converted', 'indirect', 'direct', 'en2d', 'deg_input', 'reader_ok', 'multi_chunk', 'empty_string']
 BOUND = {
     'quick': 'pixels 0..20000, chunk 1..100000, 3 unit sets; runs 1/2/20; both modes',
     'thorough': 'same plus 100000 pixels',
@@ -56,6 +56,15 @@ def cases(tier):
     for n in (1, 2, 13):
         for bo in ('little', 'big'):
             out.append({'kind': 'pixels', 'n_pixels': n, 'chunk': 4, 'units': 'extreme', 'byteorder': bo, 'sink': 'bytes'})
+    # single write calls above 1 MiB and around 2^16 pixels (block-wise copies, internal limits)
+    for n, ch in ((29127, 29127), (29128, 29128), (30000, 100000), (65537, 65537), (70000, 70000)):
+        for bo, sink in (('little', 'bytes'), ('big', 'bytes'), ('little', 'path')):
+            out.append({'kind': 'pixels', 'n_pixels': n, 'chunk': ch, 'units': 'alt', 'byteorder': bo, 'sink': sink})
+    # experiment objects reused after having been written once
+    for how in ('setattr', 'copy', 'deepcopy', 'replace'):
+        for mode in ('direct', 'indirect'):
+            for bo in ('little', 'big'):
+                out.append({'kind': 'reuse', 'how': how, 'mode': mode, 'byteorder': bo})
     for dtype in ('float32',):
         for n in (1, 13):
             out.append({'kind': 'pixels', 'n_pixels': n, 'chunk': 4, 'units': 'default', 'byteorder': 'little', 'sink': 'bytes', 'dtype': dtype})
@@ -442,8 +451,56 @@ def run_metadata(case, rec):
     rec.nontrivial += 1
 
 
+def run_reuse(case, rec):
+    """Write experiments to a first file, change them (attribute assignment / copies that are then changed), write a
+    second file: the second file holds what was supplied to *it*."""
+    import copy
+    import dataclasses
+
+    exps = [sq.experiment(run_id=r, mode=case['mode'], filename=f'first_{r}') for r in range(3)]
+    sq.write_file(('pix',), byteorder=case['byteorder'], sink='bytes', n_pixels=5, experiments=exps)
+    rec.transitions += 1
+    new = []
+    for r, e in enumerate(exps):
+        changes = {'run_id': 10 + 2 * r, 'psi': sc.scalar(1.0 + 0.1 * r, unit='rad'), 'filename': f'second_{r}', 'efix': e.efix * 2.0}
+        if case['how'] == 'setattr':
+            for k, v in changes.items():
+                setattr(e, k, v)
+            new.append(e)
+        elif case['how'] == 'replace':
+            new.append(dataclasses.replace(e, **changes))
+        else:
+            c = copy.copy(e) if case['how'] == 'copy' else copy.deepcopy(e)
+            for k, v in changes.items():
+                setattr(c, k, v)
+            new.append(c)
+    data, _ = sq.write_file(('pix',), byteorder=case['byteorder'], sink='bytes', n_pixels=5, experiments=new)
+    rec.transitions += 1
+    rec.states += 1
+    try:
+        dec = sqwdec.decode_file(data)
+    except sqwdec.DecodeError as e:
+        rec.viol('SqwBuilder.create', 'undecodable', str(e))
+        return
+    arr = sqwdec.struct_of(dec['blocks'][('experiment_info', 'expdata')])['array_dat']
+    ok = True
+    for r, (st, e) in enumerate(zip(arr['data'], new, strict=True)):
+        rec.evals += 1
+        rec.validated += 1
+        got = (sqwdec.scalar(st['run_id']), sqwdec.scalar(st['filename']), float(sqwdec.scalar(st['psi'])), sqwdec.ndarray(st['efix']).ravel().tolist())
+        want = (float(e.run_id + 1), e.filename, float(e.psi.to(unit='rad').value), np.atleast_1d(e.efix.to(unit='meV', dtype='float64').values).tolist())
+        if got[:2] != want[:2] or not _close(got[2], want[2], 4e-16) or not _close(got[3], want[3], 4e-16):
+            rec.viol('SqwBuilder.create', 'stale_experiment_after_reuse', f'run {r} ({case["how"]}): second file holds (run_id+1, filename, psi, efix) = {got}, supplied {want}', run=r, how=case['how'])
+            ok = False
+    if ok:
+        rec.cls('experiments_reused_ok')
+        rec.nontrivial += 1
+
+
 def run_case(case, rec):
     sq.freeze_clock()
+    if case['kind'] == 'reuse':
+        return run_reuse(case, rec)
     {'pixels': run_pixels, 'experiments': run_experiments, 'metadata': run_metadata}[case['kind']](case, rec)
 
 
